@@ -21,7 +21,7 @@ RULE = ("Hypothesis: histories = op lists (1-30 steps) over the full public alph
 ASSUMPTIONS = ["mutators are never interleaved with an open messages_*() generator (documented as illegal)",
                "edits through messages_abs() never change `time`; invalidate_* is only called when the other view is fresh",
                "an operation that raises identically on the object and on its clean replica ends the history as inconclusive"]
-TIERS = {"quick": dict(shards=8, examples=800), "thorough": dict(shards=16, examples=8000)}
+TIERS = {"quick": dict(shards=8, examples=800), "thorough": dict(size=2, shards=16, examples=8000)}
 
 ABS_OPS = {"add_abs", "cutoff", "merge", "quantise", "qnl", "qan", "it_abs", "read_abs"}
 REL_OPS = {"add_rel", "concatenate", "normalise", "pad", "set_channel", "scale", "transpose", "it_rel", "read_rel"}
@@ -29,15 +29,16 @@ PURE = {"read_abs", "read_rel", "refresh", "inval_abs", "inval_rel", "getters", 
 
 
 @st.composite
-def _case(draw):
+def _case(draw, size=1):
     init = draw(gens.seqspec(meta=gens.meta_events(max_tick=60, max_events=2), channels=(0, 1), pitches=(60, 61, 62),
                              max_notes=4, max_len=30, max_gap=20, start_max=20))
-    n = draw(st.one_of(st.integers(1, 30), st.integers(6, 30)))
+    n = draw(st.one_of(st.integers(1, 30 * size), st.integers(6, 30 * size)))
     return {"init": init, "ops": draw(st.lists(ops.op_strategy(ops.ALL_OPS), min_size=n, max_size=n))}
 
 
 def strategy(params, shard, nshards):
-    return _case()
+    # thorough tier: odd shards draw larger cases (size 2), even shards keep the small, dense ones
+    return _case(size=params.get("size", 1) if shard % 2 else 1)
 
 
 def _state(s):
